@@ -11,4 +11,4 @@ cp -r /repo/flamapy "$d/flamapy"
 ln -s /repo/resources "$d/resources"
 (cd "$d" && patch -s -p1 < "$patch")
 cd "$(dirname "$0")/.."
-FMSIM_REPO="$d" ./check "$prop" "$tier" --seconds "$secs" || true
+FMSIM_REPO="$d" FMSIM_PYC="$d/pyc" ./check "$prop" "$tier" --seconds "$secs" || true
